@@ -121,6 +121,7 @@ func cmdCheck(args []string) int {
 	}
 	vdir := verifDir()
 	t0 := time.Now()
+	engine.NameBaseline = loadNames(vdir)
 
 	work, err := os.MkdirTemp("", "nriverif-*")
 	if err != nil {
@@ -249,6 +250,14 @@ func loadKnown(vdir string) []KnownFinding {
 		json.Unmarshal(data, &kf)
 	}
 	return kf
+}
+
+func loadNames(vdir string) map[string]engine.NameTable {
+	m := map[string]engine.NameTable{}
+	if data, err := os.ReadFile(filepath.Join(vdir, "baseline_names.json")); err == nil {
+		json.Unmarshal(data, &m)
+	}
+	return m
 }
 
 func loadBaseline(vdir string) *Baseline {
@@ -486,6 +495,14 @@ func report(vdir, prop, tier string, seed int, results []*engine.UnitResult, t0 
 		os.WriteFile(filepath.Join(vdir, "evidence", prop+".json"), data, 0o644)
 	}
 	if updateBaseline && len(violations) == 0 && !partial {
+		nm := loadNames(vdir)
+		for _, r := range results {
+			if r.Contract != nil && r.Err == nil {
+				nm[r.Unit] = r.Names
+			}
+		}
+		nd, _ := json.MarshalIndent(nm, "", " ")
+		os.WriteFile(filepath.Join(vdir, "baseline_names.json"), nd, 0o644)
 		sort.Strings(dischargedNames)
 		baseline.Discharged[prop] = dischargedNames
 		data, _ := json.MarshalIndent(baseline, "", " ")
